@@ -12,6 +12,7 @@ def main(tier, seed, replay=None):
         from props import chan_model
 
         chan_model.correspondence(ck, ok, "C03", tier, replay)
+        chan_model.link_correspondence(ck, ok, tier, replay)
     except ImportError:
         pass
     return ck.finish(rule='generated send/close histories: worker or initiator sends k items then closes explicitly, ends its remote_exec, or drops its last reference, with one or two blocked receivers and waitclose callers on the other side; random/PCT schedules with line-level preemption. distinct = distinct (program, schedule prefix).')
